@@ -32,7 +32,10 @@ ASSUMPTIONS = ['scope per statement: inIdx >= 0; flag sets respect CLEANSTACK =>
                'termination judged by libFuzzer -timeout and a per-check wall budget; a time-out is reported as inconclusive unless it '
                'reproduces']
 SELFTEST_NOTE = 'empty input and seed corpus pass the target before a campaign starts'
-FLAGS = ['P2SH', 'NULLDUMMY', 'CLEANSTACK', 'DISCOURAGE_UPGRADABLE_NOPS']
+# the four flags the interpreter implements first (bits 0-3), then every other flag constant the library exports: the property
+# quantifies over flag SETS, and a flag that is (or becomes) more than a no-op must not open a hole
+FLAGS = ['P2SH', 'NULLDUMMY', 'CLEANSTACK', 'DISCOURAGE_UPGRADABLE_NOPS', 'STRICTENC', 'DERSIG', 'LOW_S', 'SIGPUSHONLY', 'MINIMALDATA',
+         'CHECKLOCKTIMEVERIFY']
 
 
 def selftest():
@@ -59,13 +62,13 @@ def decode(data):
     d = bytes(data) + bytes(5)
     n = d[4]
     body = bytes(data[5:])
-    return {'fb': d[0] & 15, 'variant': d[1] & 63, 'mode': d[2] % 5, 'idxsel': d[3] % 6, 'a': body[:n].hex(), 'b': body[n:].hex()}
+    return {'fb': d[0] | (d[1] >> 6) << 8, 'variant': d[1] & 63, 'mode': d[2] % 5, 'idxsel': d[3] % 6, 'a': body[:n].hex(), 'b': body[n:].hex()}
 
 
 def encode(case):
     a = bytes.fromhex(case['a'])
     assert len(a) <= 255
-    return bytes([case['fb'], case['variant'], case['mode'], case['idxsel'], len(a)]) + a + bytes.fromhex(case['b'])
+    return bytes([case['fb'] & 255, case['variant'] | (case['fb'] >> 8) << 6, case['mode'], case['idxsel'], len(a)]) + a + bytes.fromhex(case['b'])
 
 
 def scripts_of(case):
@@ -179,7 +182,7 @@ def s_trunc(draw):
                           b'\x4e' + len(d).to_bytes(4, 'little') + d, bytes([0xac]), bytes([0xae])][c % 6])
         b = b''.join(parts)
     a = draw(st.sampled_from([b'', b'\x51', b'\x00\x51', b'\x51\x52\x53', b'\x4c', b'\x01']))
-    return {'fb': draw(st.integers(0, 15)), 'variant': draw(st.integers(0, 63)), 'idxsel': draw(st.sampled_from([0, 0, 1, 2, 4, 5])),
+    return {'fb': draw(st.one_of(st.integers(0, 15), st.integers(0, 1023))), 'variant': draw(st.integers(0, 63)), 'idxsel': draw(st.sampled_from([0, 0, 1, 2, 4, 5])),
             'a': a.hex(), 'b': b[:400].hex()}
 
 
@@ -193,7 +196,7 @@ def t_trunc(ctx):
 def s_raw(draw):
     big = draw(st.integers(0, 30)) == 0
     b = draw(st.binary(max_size=300)) if not big else draw(st.binary(min_size=1, max_size=16)) * draw(st.sampled_from([625, 626, 700]))
-    return {'fb': draw(st.integers(0, 15)), 'variant': draw(st.integers(0, 63)), 'mode': draw(st.integers(0, 4)),
+    return {'fb': draw(st.one_of(st.integers(0, 15), st.integers(0, 1023))), 'variant': draw(st.integers(0, 63)), 'mode': draw(st.integers(0, 4)),
             'idxsel': draw(st.integers(0, 5)), 'a': draw(st.binary(max_size=80)).hex(), 'b': b[:10001].hex()}
 
 
